@@ -113,6 +113,30 @@ def scenarios(tier):
                 dns={'h.test': '10.0.0.1'}, kinds='ARS', horizon=4000,
                 features={'role': 'relay_then_upstream_close', 'mode': mode, 'flags': fname,
                           'case': 'early_response', '_expect': 'received_from_upstream'}))
+            # the same relays through the REVERSE proxy (its upstream side is a different class:
+            # TcpUpstreamConnectionHandler), and a large close-delimited relay in both roles whose tail is
+            # still queued for a slow client when the upstream's end-of-stream is read
+            rvreq = b'GET /rv HTTP/1.1\r\nHost: front\r\n\r\n'
+            rvflags = base + ['--enable-reverse-proxy']
+            rvopts = {'plugins': [plugins.reverse([(r'/rv$', [b'http://up.test/p'])], name='VerifRevC07')]}
+            bigresp = b'HTTP/1.0 200 OK\r\nServer: x\r\n\r\n' + stamp(120000, 9)
+            for role, fa3, fo3, req, addr, dns3 in (
+                    ('reverse', rvflags, rvopts, rvreq, ('10.0.0.3', 80), {'up.test': '10.0.0.3'}),
+                    ('forward', base, {}, GET, ('10.0.0.1', 80), {'h.test': '10.0.0.1'})):
+                cases = [('big-close', [bigresp], True)]
+                if role == 'reverse':
+                    cases += [('close-delimited', [resp[:30], resp[30:]], False), ('cl-close', [resp2], False)]
+                for cn, pk, big in cases:
+                    if big and fname == 'scaled':
+                        continue
+                    out.append(Scenario(
+                        '%s/%s/%s-relay-%s' % (mode, fname, role, cn), fa3, flags_opts=fo3, mode=mode,
+                        clients=[dict(script=[('send', req)] + wait, read_limit=(30000 if big else None))],
+                        origins={addr: (lambda pk=pk: HttpOrigin([pk], then={0: 'close'}))}, dns=dns3,
+                        kinds='RS' if big else 'ARS', horizon=20000,
+                        features={'role': 'relay_then_upstream_close', 'mode': mode, 'flags': fname,
+                                  'case': '%s_%s' % (role, cn), '_expect': b''.join(pk),
+                                  '_sockbuf': 4096 if big else None, '_bound': 1 if big else None}))
     for s in out:
         if s.features.get('_bound') is None:
             s.features.pop('_bound', None)
